@@ -237,7 +237,9 @@ HbOutcomes(opp) ==
 PublishOutcomes ==
     IF FloodPublish THEN
        {[Blank EXCEPT !.validated = TRUE,
-                      !.recips = {q \in Peers : q \in Direct \/ FloodPubOK(score[q])}]}
+                      !.recips = {q \in Peers : q \in Direct \/ FloodPubOK(score[q])}
+                                 \* (the flood branch of rpcs() does not look at the mesh at all)
+                                 \cup (IF Bug = "floodPubMesh" /\ joined THEN sel ELSE {})]}
     ELSE IF joined THEN
        {[Blank EXCEPT !.validated = TRUE, !.recips = RouteRecips(NoP, sel)]}
     ELSE
@@ -338,8 +340,10 @@ P_C09_Gossip(a, o) ==
          IN Cardinality(elig) <= Dlazy => elig \subseteq o.ihaveTo
 
 P_C09_Publish(a, o) ==
-    \* a peer below the publish threshold gets a copy only as a mesh member or a fanout peer chosen earlier
-    /\ \A q \in o.recips : q \in Direct \/ score[q] >= thr.publish \/ q \in sel
+    \* a peer below the publish threshold gets a copy only as a mesh member or a fanout peer chosen earlier -
+    \* and not even then when the node flood-publishes its OWN message: flood publishing chooses by score alone
+    /\ \A q \in o.recips : q \in Direct \/ score[q] >= thr.publish
+                             \/ (q \in sel /\ ~(a.kind = "publish" /\ FloodPublish))
     /\ \A q \in o.newFanout : score[q] >= thr.publish /\ q \notin Direct
     /\ (a.kind = "hb" /\ ~joined) => \A q \in o.post.sel : score[q] >= thr.publish
     \* equality side
